@@ -1010,6 +1010,15 @@ def where_set(tokens):
     return res
 
 
+FMT_TRAIT_PATH_RE = re.compile(r"(?<![\w:])(?:::)?(?:\w+::)*fmt::(Display|Debug|Binary|Octal|LowerHex|UpperHex|LowerExp|UpperExp|Pointer)\b")
+
+
+def canon_pred(p):
+    """The path by which an expansion names a std formatting trait is not part of the property (`::core::fmt::Display`,
+    `derive_more::core::fmt::Display`, ... denote the same trait): all are rewritten to one spelling before comparing."""
+    return (p[0], FMT_TRAIT_PATH_RE.sub(lambda m: FMTPATH + m.group(1), p[1]))
+
+
 def judge_where(it, have):
     """Compares observed predicates with the reference; returns (verdict, detail).
     verdict: "ok" | ("known", [keys]) | ("bad", key, missing, excess)"""
@@ -1021,7 +1030,7 @@ def judge_where(it, have):
             obs.add((lhs, rhs))
         else:
             concrete += 1
-    if obs == ref:
+    if obs == ref or set(map(canon_pred, obs)) == set(map(canon_pred, ref)):
         return "ok", concrete, None
     present = sorted(set(o for e in it.preds.values() for o in e["origins"] if o != "ok"))
     for r in range(1, len(present) + 1):
